@@ -605,13 +605,16 @@ func statusConst(code int) string {
 }
 
 func (p *printer) httpError(he *spec.HTTPError) {
-	if len(he.Headers) == 0 && he.Body == "" {
+	if len(he.Headers) == 0 && len(he.Cookies) == 0 && he.Body == "" {
 		p.ln("Response(%s, %s)", q(he.Name), statusConst(he.Status))
 		return
 	}
 	p.open("Response(%s, %s, func() {", q(he.Name), statusConst(he.Status))
 	for _, h := range he.Headers {
 		p.ln("Header(%s)", loc(h))
+	}
+	for _, c := range he.Cookies {
+		p.ln("Cookie(%s)", loc(c))
 	}
 	p.bodySpec(he.Body, nil)
 	p.close("})")
